@@ -71,7 +71,9 @@ func (m *Model) AddChildTrait(name string, traitName ...trait.Name) (child *trai
 			created = true
 		}),
 		resource.InterceptBefore(func(old, value proto.Message) {
-			oldChild := old.(*traits.Child)
+			// old is the live stored child, also held by earlier readers and change events;
+			// traitUnion edits the slice it is given, so give it a copy
+			oldChild := proto.Clone(old).(*traits.Child)
 			newChild := value.(*traits.Child)
 			newChild.Traits = traitUnion(oldChild.Traits, traitName...)
 		}))
@@ -86,7 +88,8 @@ func (m *Model) AddChildTrait(name string, traitName ...trait.Name) (child *trai
 func (m *Model) RemoveChildTrait(name string, traitName ...trait.Name) *traits.Child {
 	msg, err := m.children.Update(name, &traits.Child{Name: name},
 		resource.InterceptBefore(func(old, value proto.Message) {
-			oldChild := old.(*traits.Child)
+			// as in AddChildTrait: traitRemove edits the slice it is given
+			oldChild := proto.Clone(old).(*traits.Child)
 			newChild := value.(*traits.Child)
 			newChild.Traits = traitRemove(oldChild.Traits, traitName...)
 		}))
